@@ -168,6 +168,8 @@ def run_schedule(case, choices, drops_per_op):
         issue_order = {}
         while True:
             await settle(tasks)
+            # a request whose waiter is gone (its operation was cancelled or has failed meanwhile) is no longer in flight
+            sched.pending[:] = [p for p in sched.pending if not p["fut"].done()]
             for p in sched.pending:
                 if id(p) not in issue_order:
                     issue_order[id(p)] = seq
